@@ -71,6 +71,11 @@ def table_cases(draw, tier="quick", kind="pd"):
     nrows = draw(st.integers(0, 8))
     flat = draw(cells(recs, d, ncols * nrows))
     rows = [flat[r * ncols:(r + 1) * ncols] for r in range(nrows)]
+    if rows and draw(st.integers(0, 19 if tier == "quick" else 9)) == 0:
+        # a long table around typical chunk sizes, built by cycling the drawn rows (no extra draws)
+        target = draw(st.sampled_from([100, 101, 257] if tier == "quick" else [64, 100, 101, 128, 256, 257, 1000, 1001, 1024, 1025]))
+        rows = [list(rows[k % len(rows)]) for k in range(target)]
+        nrows = target
     case = {
         "spec": {"delimiter": d, "records": recs},
         "rows": rows,
